@@ -152,7 +152,9 @@ def overrun_freq(rng):
     supervisor that keeps up: the header of every recorded step (scheduled time, scheduling shift, previous end) must be the values that step
     was scheduled with (seeded change C13-f recorded the NEXT step's scheduling shift)."""
     P = rng.choice([2, 4])
-    return dict(nodes=[_n("slow", 0, P, 1, [1, P + 1, 2 * P + 1]), _n("sup", 1, 2 * P, 1, [0, 1]), _n("w", 2, P, 0, [0, P + 2])],
+    # node w also time-stamps the step state it returns (ts + 1 tick): ignored under the simulated clock - the record keeps the start the step was given
+    # (seeded change C13-g recorded the adjusted value)
+    return dict(nodes=[_n("slow", 0, P, 1, [1, P + 1, 2 * P + 1]), _n("sup", 1, 2 * P, 1, [0, 1]), _n("w", 2, P, 0, [0, P + 2], ts_bump=1)],
                 conns=[_c("slow", "sup", window=2, delay=1, cdist=[0, 1]), _c("sup", "w", window=1, delay=0, cdist=[0, 1]),
                        _c("w", "slow", name="in_w", skip=True, window=1, delay=0, cdist=[0, 1])],
                 sup="sup")
